@@ -326,9 +326,9 @@ func c18Stream(id int, r *vrand, big bool) (*c18Case, error) {
 	}()
 	select {
 	case <-rc.done:
-	case <-time.After(60 * time.Second):
+	case <-time.After(c18Patience()):
 		rc.mu.Lock()
-		rc.failf("C18: bytes written never reached the callback|%d of %d bytes consumed after 60 s (write error: %v)", rc.consumed, c.Total, werr)
+		rc.failf("C18: bytes written never reached the callback|%d of %d bytes consumed when the harness gave up (write error: %v)", rc.consumed, c.Total, werr)
 		rc.mu.Unlock()
 	}
 	time.Sleep(2 * time.Millisecond) // a duplicate delivery would show up as an extra callback
@@ -504,9 +504,9 @@ func c18Concurrent(id int, r *vrand) (*c18Case, error) {
 	wg.Wait()
 	select {
 	case <-rc.done:
-	case <-time.After(60 * time.Second):
+	case <-time.After(c18Patience()):
 		rc.mu.Lock()
-		rc.failf("C18: events written never reached the callback|%d of %d events after 60 s", rc.got, rc.want)
+		rc.failf("C18: events written never reached the callback|%d of %d events when the harness gave up", rc.got, rc.want)
 		rc.mu.Unlock()
 	}
 	time.Sleep(2 * time.Millisecond)
@@ -536,6 +536,18 @@ func c18Concurrent(id int, r *vrand) (*c18Case, error) {
 	return c, nil
 }
 
+// generous on a healthy tree (nothing ever waits this long); once transfers have stalled the remaining ones are
+// given less time so that a broken tree is reported quickly
+var c18Stalls int32
+
+func c18Patience() time.Duration {
+	n := atomic.AddInt32(&c18Stalls, 0)
+	if n >= 2 {
+		return 2 * time.Second
+	}
+	return 30 * time.Second
+}
+
 func TestVerif_C18(t *testing.T) {
 	seed := uint64(venvInt("VERIF_SEED", 1))
 	n := venvInt("VERIF_N", 60)
@@ -558,7 +570,15 @@ func TestVerif_C18(t *testing.T) {
 		if err != nil {
 			t.Fatalf("case %d: %v", id, err)
 		}
+		for _, f := range c.Oracle {
+			if len(f.Sig) > 0 && (f.Sig == "C18: bytes written never reached the callback" || f.Sig == "C18: events written never reached the callback") {
+				atomic.AddInt32(&c18Stalls, 1)
+			}
+		}
 		out.emit(c)
 		id++
+		if atomic.LoadInt32(&c18Stalls) >= 6 {
+			break // the connection is broken; the cases so far say how
+		}
 	}
 }
